@@ -74,16 +74,19 @@ class Peer:
 
     def __init__(self, kind, community="public", auth=0, priv=0, engine_id=ENGINE, user="verifuser",
                  auth_pw=b"authpassword", priv_pw=b"privpassword", auth_kt="password", priv_kt="password",
-                 boots=5, time=1000, discover=False):
+                 boots=5, time=1000, discover=False, raw_secrets=False):
+        # raw_secrets: auth_pw / priv_pw ARE the key material of the given type (a master or localized key of the
+        # digest's size), not a password the material is derived from: two keys can then share their octets
+        self.raw_secrets = raw_secrets
         self.kind = kind
         self.community = community
         self.discover = discover
         self.state = None
         if kind == "v3":
             self.state = ag.V3AgentState(engine_id, boots=boots, time=time, user=user, auth_alg=auth,
-                                         auth_password=self._secret(auth, auth_pw, auth_kt, engine_id, auth),
+                                         auth_password=auth_pw if raw_secrets else self._secret(auth, auth_pw, auth_kt, engine_id, auth),
                                          priv_alg=priv,
-                                         priv_password=self._secret(auth, priv_pw, priv_kt, engine_id, priv),
+                                         priv_password=priv_pw if raw_secrets else self._secret(auth, priv_pw, priv_kt, engine_id, priv),
                                          auth_key_type=auth_kt, priv_key_type=priv_kt)
             if discover:
                 # what the client can do before it knows the engine id: keys localized to the empty engine id
